@@ -706,6 +706,20 @@ def replay_atype(cases, F, mon):
         if v.name != "nm" or len(v) != 3:
             F.add("assign_shape", c, [v.name, len(v)], ["nm", 3], **info)
         mon.see(v, "after typed assignment")
+    # a fault INSIDE the promotion: an int too large for a float cannot be converted -> the assignment fails and
+    # must leave contents, dtype and fingerprint exactly as they were (C08)
+    for big, val in ((10 ** 309, 1.5), (10 ** 309, 2j), (-(10 ** 400), 0.25)):
+        for key in (0, slice(1, 3), [False, True, False]):
+            v = Vector([big, 2, 3], name="nm")
+            before, fpb = vec_view(v), v.fingerprint()
+            c = {"suite": "atype", "kind": "int", "fault": "OverflowError while converting existing elements", "value": repr(val)}
+            st, _, ex = attempt(lambda: v.__setitem__(key, val if not isinstance(key, slice) else [val, val]))
+            executed += 1
+            if st == "ok":
+                if not all(isinstance(x, (float, complex)) or x is None for x in v):
+                    F.add("promotion_contents", c, [repr(x)[:20] for x in v], "all elements converted or the assignment refused")
+            elif not views_equal(before, vec_view(v)) or v.fingerprint() != fpb:
+                F.add("atomic", c, {"dtype": str(v.schema()), "vals": [repr(x)[:20] for x in v]}, {"dtype": "<int>", "unchanged": True})
     return executed
 
 
